@@ -163,9 +163,19 @@ func (cr *caseRun) syncShadow() {
 // record limit forgets the header refuses exactly these)
 const maxMsgSize = 1024
 
+// opPubSized publishes one message whose body has exactly size bytes
+func (cr *caseRun) opPubSized(t int, size int) {
+	cr.forceBody = size
+	cr.opPub(t, 1, false, false)
+	cr.forceBody = 0
+}
+
 func (cr *caseRun) body(tag int) []byte {
 	pad := cr.r.Intn(12)
 	b := []byte(fmt.Sprintf("%d|%s", tag, strings.Repeat("x", pad)))
+	if cr.forceBody > len(b) {
+		return append(b, []byte(strings.Repeat("y", cr.forceBody-len(b)))...)
+	}
 	if cr.r.Chance(12) {
 		n := maxMsgSize - cr.r.Intn(30)
 		b = append(b, []byte(strings.Repeat("y", n-len(b)))...)
